@@ -11,23 +11,129 @@ from .model import AnalysisError, fn_label
 _CACHE = {}
 
 
+class _NoTypestate:
+    """Stand-in when the control-flow analysis of Graph.optimize cannot follow the way the function is written."""
+
+    def __init__(self, why):
+        self.failed = why
+        self.findings = []
+        self.n_verbose = self.n_fixed_stores = self.n_pose_stores = 0
+        self.exposed_reads, self.role, self.return_nodes, self.main_header = [], {}, [], None
+
+    def states_at(self, n):
+        return []
+
+
 def analyse(pkg):
+    """The control-flow (typestate) analysis of Graph.optimize plus its bounded all-paths translation (gsverif.optsem).
+    Never raises: `oa.failed` tells why the typestate could not be built; `oa.semantic` lists the translation results."""
     if id(pkg) in _CACHE:
         return _CACHE[id(pkg)]
     poly.reset()
-    oa = OptimizeAnalysis(pkg)
-    oa.solve()
-    rules_structure(oa)
-    rules_T1(oa)
-    rules_T2(oa)
-    rules_T3(oa)
-    rules_T4(oa)
-    rules_T5(oa)
-    rules_fixed(oa)
-    rules_solve_update(oa)
-    semantic_update_check(oa)
+    try:
+        oa = OptimizeAnalysis(pkg)
+        oa.solve()
+        rules_structure(oa)
+        rules_T1(oa)
+        rules_T2(oa)
+        rules_T3(oa)
+        rules_T4(oa)
+        rules_T5(oa)
+        rules_fixed(oa)
+        rules_solve_update(oa)
+        semantic_update_check(oa)
+        oa.failed = None
+    except AnalysisError as e:
+        oa = _NoTypestate(str(e))
+    except RecursionError:
+        oa = _NoTypestate("recursion limit while analysing Graph.optimize")
+    oa.semantic = run_semantic(pkg)
     _CACHE[id(pkg)] = oa
     return oa
+
+
+def run_semantic(pkg):
+    import re
+    from . import optsem
+    from .algebra import run_tasks
+    fn = pkg.method("Graph", "optimize")
+    where = "%s:%d" % (fn._gs_module, fn.lineno)
+    ts = optsem.tasks("", "optimize-semantics", where)
+    out = []
+    for t, r in zip(ts, run_tasks(pkg, ts)):
+        kinds = set(re.findall(r"\[(solve|pose|fixed|stopping|report|verbose|state)\]", r["detail"])) if r["status"] == "violation" else set()
+        if r["status"] == "violation" and not kinds:
+            kinds = {"solve", "pose", "fixed", "stopping", "report", "verbose", "state"}     # raises, non-exact operations, ...
+        out.append(dict(name=t[0].split("/optimize-semantics/")[1], status=r["status"], detail=r["detail"], kinds=kinds, paths=r["paths"],
+                        where=where, stats=r["stats"]))
+    return out
+
+
+# which kinds of deviation of optimize() from the reference semantics break which property
+PROP_KINDS = {
+    "C03": {"solve", "pose", "fixed"},
+    "C04": {"solve", "pose", "stopping", "report"},
+    "C06": {"fixed", "pose", "solve"},
+    "C07": {"solve", "pose", "stopping"},
+    "C08": {"stopping"},
+    "C11": {"pose"},
+    "C12": {"stopping", "report", "verbose", "state"},
+    "C15": {"fixed"},
+}
+
+
+def optimize_verdicts(run_, pkg, prop, select, rule_sem=None):
+    """Report, for property `prop`, (1) the bounded all-paths translation of optimize() and (2) the typestate findings chosen by
+    `select(finding) -> (key, rule) | None`.  When every translated scenario agrees with the reference semantics, a typestate
+    *violation* is not believed (its recognisers know only some ways of writing the loop) and is recorded as a note; when the
+    translation is undecided the typestate findings stand.  Returns the number of rule instances."""
+    oa = analyse(pkg)
+    kinds = PROP_KINDS[prop]
+    sem = oa.semantic
+    all_ok = bool(sem) and all(x["status"] == "ok" for x in sem)
+    n = 0
+    rule_sem = rule_sem or "%s-optimize-semantics" % prop
+    for x in sem:
+        key = "%s/optimize-semantics/%s" % (prop, x["name"])
+        if not run_.wants(key):
+            continue
+        if x["status"] == "ok":
+            n += 1
+            run_.ok(key, rule_sem, sample=dict(obligation=key, paths=x["paths"], **x["stats"]))
+        elif x["status"] == "violation" and (x["kinds"] & kinds):
+            n += 1
+            parts = [p_ for p_ in x["detail"].split(" || ") if any("[%s]" % k in p_ for k in kinds)] or [x["detail"]]
+            run_.violation(key, rule_sem, "optimize() deviates from the reference semantics: " + " || ".join(parts)[:1500], where=x["where"])
+        elif x["status"] == "violation":
+            run_.note("%s: deviation of another kind (%s), not a clause of %s" % (key, ",".join(sorted(x["kinds"])), prop))
+        else:
+            run_.note("%s: translation undecided (%s)" % (key, x["detail"][:160]))
+    run_.extra["optimize_semantics"] = dict(scenarios=len(sem), ok=sum(1 for x in sem if x["status"] == "ok"),
+                                            violations=sum(1 for x in sem if x["status"] == "violation"),
+                                            undecided=sum(1 for x in sem if x["status"] == "error"), typestate=oa.failed or "built")
+    if oa.failed:
+        if all_ok:
+            run_.note("typestate of Graph.optimize not built (%s); decided by the translation alone" % oa.failed)
+        elif not any(x["status"] == "violation" and (x["kinds"] & kinds) for x in sem):
+            run_.error("Graph.optimize: %s; translation: %s" % (oa.failed, "; ".join("%s=%s" % (x["name"], x["status"]) for x in sem if x["status"] != "ok")[:300]))
+        return n
+    overridden = 0
+    for f in oa.findings:
+        kr = select(f)
+        if kr is None:
+            continue
+        key, rule = kr
+        if f.ok:
+            n += 1
+            run_.ok(key, rule)
+        elif all_ok:
+            overridden += 1
+            run_.note("typestate finding %s not believed (every translated run of optimize() agrees with the reference semantics): %s" % (key, f.what[:160]))
+        else:
+            n += 1
+            run_.violation(key, rule, f.what, where=f.where)
+    run_.extra["typestate_findings_overridden"] = overridden
+    return n
 
 
 SWEEP_SYNTACTIC_KEYS = ("C03-d/update-covers-all-vertices", "C03-d/update-step", "C06-d/optimize/update-loop", "C03-d/update-loop-extra")
